@@ -36,6 +36,11 @@ enum Defect {
 	OtherIdKind,
 	/// exactly one id (of this position) returned in the other id kind, all others exact
 	OtherIdKindOne(usize),
+	/// every entry answered exactly once, but the result of this position is the number 17, which the caller's result
+	/// type cannot hold (the call may fail as a whole; if it succeeds it still has n entries in request order)
+	Undecodable(usize),
+	/// position `dup` answered twice: once with a value, once with an error object (in this order if `value_first`)
+	DupExtraMixed { dup: usize, value_first: bool },
 }
 
 impl Defect {
@@ -50,6 +55,8 @@ impl Defect {
 			Defect::ForeignAbove => "foreign-id-above",
 			Defect::OtherIdKind => "other-id-kind",
 			Defect::OtherIdKindOne(_) => "one-id-of-other-kind",
+			Defect::Undecodable(_) => "undecodable-result",
+			Defect::DupExtraMixed { .. } => "duplicate-extra-value-and-error",
 		}
 	}
 }
@@ -154,6 +161,37 @@ fn craft_reply(c: &Case, entries: &[(Value, String)], r: &mut Rng) -> (String, V
 				answered[p] = true;
 			}
 		}
+		Defect::Undecodable(pos) => {
+			for &p in &c.perm {
+				if p == *pos && !c.errs[p] {
+					parts.push(ok_response(&entries[p].0, json!(17)));
+				} else {
+					parts.push(answer(p, entries[p].0.clone()));
+				}
+				answered[p] = true;
+			}
+		}
+		Defect::DupExtraMixed { dup, value_first } => {
+			for &p in &c.perm {
+				if p == *dup {
+					let val = ok_response(&entries[p].0, json!({"tag": entries[p].1, "n": 900}));
+					let err = err_response(&entries[p].0, 1000, "scripted", Some(json!({"tag": entries[p].1, "n": 901})));
+					let (a, b) = if *value_first { (val, err) } else { (err, val) };
+					parts.push(a);
+					// the second answer somewhere behind the first
+					parts.push(b);
+				} else {
+					parts.push(answer(p, entries[p].0.clone()));
+				}
+				answered[p] = true;
+			}
+			if parts.len() > 2 && r.bool() {
+				// move the last answer of another entry between the two
+				let last = parts.pop().unwrap();
+				let at = r.usize(parts.len());
+				parts.insert(at, last);
+			}
+		}
 		Defect::OtherIdKind => {
 			for &p in &c.perm {
 				let x = num(&entries[p].0);
@@ -170,6 +208,22 @@ fn craft_reply(c: &Case, entries: &[(Value, String)], r: &mut Rng) -> (String, V
 fn to_entries<'a>(rp: BatchResponse<'a, Value>) -> (Vec<Entry>, usize, usize) {
 	let (ok, failed) = (rp.num_successful_calls(), rp.num_failed_calls());
 	(rp.into_iter().map(|e| e.map_err(|o| (o.code(), o.data().map(|d| d.get().to_string())))).collect(), ok, failed)
+}
+
+/// The result type of the batch under test: any JSON object (what the scripted server answers with); anything else - the
+/// number 17, say - cannot be decoded into it.
+#[derive(Debug, Clone)]
+struct Strict(Value);
+impl<'de> serde::Deserialize<'de> for Strict {
+	fn deserialize<D: serde::Deserializer<'de>>(d: D) -> Result<Self, D::Error> {
+		let v = Value::deserialize(d)?;
+		if v.is_object() { Ok(Strict(v)) } else { Err(serde::de::Error::custom("the result type of this call is an object")) }
+	}
+}
+
+fn strict_entries<'a>(rp: BatchResponse<'a, Strict>) -> (Vec<Entry>, usize, usize) {
+	let (ok, failed) = (rp.num_successful_calls(), rp.num_failed_calls());
+	(rp.into_iter().map(|e| e.map(|s| s.0).map_err(|o| (o.code(), o.data().map(|d| d.get().to_string())))).collect(), ok, failed)
 }
 
 /// The oracle.
@@ -196,7 +250,7 @@ fn judge(c: &Case, o: &Outcome, client: &str) -> Vec<(String, String)> {
 						n_ok += 1;
 						if val["tag"] != json!(tag) {
 							bad("foreign-answer", format!("entry {i} holds {val}, the request there was {tag}"));
-						} else if o.sent_err.get(i) == Some(&true) {
+						} else if o.sent_err.get(i) == Some(&true) && !matches!(c.defect, Defect::DupExtraMixed { dup, .. } if dup == i) {
 							bad("wrong-outcome", format!("entry {i} is Ok but an error object was sent for it"));
 						} else if o.answered.get(i) == Some(&false) {
 							bad("unanswered-entry-filled", format!("entry {i} got no answer but holds {val}"));
@@ -208,7 +262,7 @@ fn judge(c: &Case, o: &Outcome, client: &str) -> Vec<(String, String)> {
 							let d: Value = data.as_deref().and_then(|d| serde_json::from_str(d).ok()).unwrap_or(Value::Null);
 							if d["tag"] != json!(tag) {
 								bad("foreign-answer", format!("entry {i} holds the error for {d}, the request there was {tag}"));
-							} else if o.sent_err.get(i) == Some(&false) {
+							} else if o.sent_err.get(i) == Some(&false) && !matches!(c.defect, Defect::DupExtraMixed { dup, .. } if dup == i) {
 								bad("wrong-outcome", format!("entry {i} is the scripted error but a success was sent for it"));
 							}
 						} else if complete || (o.answered.get(i) == Some(&true) && !matches!(c.defect, Defect::OtherIdKind | Defect::OtherIdKindOne(_))) {
@@ -280,8 +334,8 @@ async fn run_ws(c: &Case) -> (Outcome, Vec<(String, String)>) {
 		for j in 0..n {
 			bb.insert("call", rpc_params![format!("T{j}")]).unwrap();
 		}
-		let res: Result<BatchResponse<Value>, _> = cl.batch_request(bb).await;
-		res.map(to_entries).map_err(|e| err_kind(&e))
+		let res: Result<BatchResponse<Strict>, _> = cl.batch_request(bb).await;
+		res.map(strict_entries).map_err(|e| err_kind(&e))
 	});
 	// read everything the client wrote
 	let msgs = srv.collect_until_idle(Duration::from_secs(5)).await;
@@ -387,8 +441,8 @@ async fn run_http(c: &Case) -> Outcome {
 	for j in 0..c.n {
 		bb.insert("call", rpc_params![format!("T{j}")]).unwrap();
 	}
-	let res: Result<BatchResponse<Value>, _> = http.batch_request(bb).await;
-	let result = res.map(to_entries).map_err(|e| err_kind(&e));
+	let res: Result<BatchResponse<Strict>, _> = http.batch_request(bb).await;
+	let result = res.map(strict_entries).map_err(|e| err_kind(&e));
 	let (reply_text, answered, wire_ids) = shared.lock().unwrap().clone();
 	Outcome { result, answered, sent_err: c.errs.clone(), tags: (0..c.n).map(|j| format!("T{j}")).collect(), reply_text, wire_ids }
 }
@@ -404,6 +458,9 @@ fn all_cases(max_n: usize, seed: u64, sample_above: usize) -> Vec<Case> {
 			defects.push(Defect::Subset((0..n).map(|i| mask & (1 << i) != 0).collect()));
 		}
 		for dup in 0..n {
+			defects.push(Defect::Undecodable(dup));
+			defects.push(Defect::DupExtraMixed { dup, value_first: true });
+			defects.push(Defect::DupExtraMixed { dup, value_first: false });
 			defects.push(Defect::DupExtra { dup });
 			for missing in 0..n {
 				if missing != dup {
